@@ -670,9 +670,12 @@ func c15Prop(rt *rapid.T, c *vlib.Case, mode c15Mode) {
 		return z
 	}
 
+	var forcedID *uint64
 	store := func(t *rapid.T, big bool) {
 		var id uint64
-		if z := zombies(); len(z) > 0 && rapid.IntRange(0, 2).Draw(t, "restore") == 0 {
+		if forcedID != nil {
+			id = *forcedID
+		} else if z := zombies(); len(z) > 0 && rapid.IntRange(0, 2).Draw(t, "restore") == 0 {
 			id = rapid.SampledFrom(z).Draw(t, "zid")
 		} else {
 			id = idGen.Draw(t, "id")
@@ -705,10 +708,13 @@ func c15Prop(rt *rapid.T, c *vlib.Case, mode c15Mode) {
 		s.versions[id] = append(s.versions[id], v)
 	}
 
+	var forcedSet []uint64
 	invalidate := func(t *rapid.T, most bool) {
 		var set []uint64
 		k := rapid.IntRange(0, 9).Draw(t, "ikind")
 		switch {
+		case forcedSet != nil:
+			set = forcedSet
 		case most:
 			for _, id := range c15Pool {
 				if rapid.IntRange(0, 9).Draw(t, "in") < 8 {
@@ -978,7 +984,7 @@ func c15Prop(rt *rapid.T, c *vlib.Case, mode c15Mode) {
 	// weights in percent: store, bigstore, invalidate, invalidate-most, reopen, truncate, reset
 	weights := []int{56, 0, 16, 0, 14, 13, 1}
 	if mode.big {
-		weights = []int{12, 40, 6, 20, 10, 12, 0}
+		weights = []int{12, 40, 6, 20, 6, 8, 8}
 	}
 	actions := map[string]func(*rapid.T){
 		"op": func(t *rapid.T) {
@@ -1002,6 +1008,25 @@ func c15Prop(rt *rapid.T, c *vlib.Case, mode c15Mode) {
 				truncate(t)
 			default:
 				reset(t)
+				if mode.big && rapid.Bool().Draw(t, "resetmacro") {
+					// after a reset: a few records that stay, several big ones behind them that are
+					// invalidated (>= 16 MiB and half of the file free), then one more store, which
+					// compacts inside the same process (a reopen would recompute the accounting)
+					perm := rapid.Permutation(c15Pool).Draw(t, "macroids")
+					nKeep := rapid.IntRange(1, 2).Draw(t, "macrokeep")
+					for i, id := range perm {
+						id := id
+						forcedID = &id
+						store(t, i >= nKeep || rapid.Bool().Draw(t, "keepbig"))
+					}
+					forcedID = nil
+					forcedSet = append([]uint64{}, perm[nKeep:]...)
+					sort.Slice(forcedSet, func(i, j int) bool { return forcedSet[i] < forcedSet[j] })
+					invalidate(t, false)
+					forcedSet = nil
+					store(t, false)
+					st.labels["macro:reset-then-compact"] = true
+				}
 			}
 		},
 		"": func(t *rapid.T) {
